@@ -70,6 +70,7 @@ type Svc struct {
 	Deep Deep
 
 	hidden *Sub // unexported: must not be reachable
+	lastAll All
 	kept   map[int]func(ctx context.Context, i int, str string) (string, error)
 }
 
@@ -280,6 +281,21 @@ func (s *Svc) Kept(slot int) func(ctx context.Context, i int, str string) (strin
 	return s.kept[slot]
 }
 
+// ClosureTypes invokes cb with the argument tuple number `row` of closureRows (numbers, booleans,
+// strings and slices of those; zero, empty and nil values included) and hands back what it returned.
+func (s *Svc) ClosureTypes(ctx context.Context, row int, cb func(ctx context.Context, a int, b float64, c bool, d string, e []int, f []string, g uint8, h []float64, i []bool, j int64) (string, error)) (string, error) {
+	s.log(ctx, "ClosureTypes", fmt.Sprint(row))
+	r := closureRows[row%len(closureRows)]
+	return cb(ctx, r.A, r.B, r.C, r.D, r.E, r.F, r.G, r.H, r.I, r.J)
+}
+
+// ClosureResult invokes cb and reports the value and error it handed back.
+func (s *Svc) ClosureResult(ctx context.Context, want int, cb func(ctx context.Context, k int) ([]int, error)) (string, error) {
+	s.log(ctx, "ClosureResult", fmt.Sprint(want))
+	v, err := cb(ctx, want)
+	return fmt.Sprintf("%v|%v", v, err), nil
+}
+
 func (s *Svc) Panic(ctx context.Context, msg string) error {
 	s.log(ctx, "Panic", msg)
 	panic(errors.New(msg))
@@ -287,6 +303,9 @@ func (s *Svc) Panic(ctx context.Context, msg string) error {
 
 func (s *Svc) EchoAll(ctx context.Context, a int, b string, c []byte, d []int, e map[string]int, f Inner, g *Inner, h float64, i bool, j []string, k [][]int, l *int) (All, error) {
 	s.log(ctx, "EchoAll", "")
+	s.mu.Lock()
+	s.lastAll = All{a, b, c, d, e, f, g, h, i, j, k, l}
+	s.mu.Unlock()
 	return All{a, b, c, d, e, f, g, h, i, j, k, l}, nil
 }
 
@@ -312,6 +331,31 @@ func (s *Svc) secret(ctx context.Context) error {
 
 var _ = (*Svc).secret
 
+type closureRow struct {
+	A int
+	B float64
+	C bool
+	D string
+	E []int
+	F []string
+	G uint8
+	H []float64
+	I []bool
+	J int64
+}
+
+func (r closureRow) render() string {
+	return fmt.Sprintf("%d|%v|%v|%q|%v|%q|%d|%v|%v|%d", r.A, r.B, r.C, r.D, r.E, r.F, r.G, r.H, r.I, r.J)
+}
+
+var closureRows = []closureRow{
+	{},
+	{A: 1, B: 2, C: true, D: "x", E: []int{1, 2, 3}, F: []string{"a", ""}, G: 255, H: []float64{1, 2.5}, I: []bool{true, false}, J: 1 << 40},
+	{A: -7, B: -0.5, C: false, D: "", E: []int{}, F: []string{}, G: 0, H: []float64{}, I: []bool{}, J: -5},
+	{A: 0, B: 0, C: false, D: "üñí \"q\" \n", E: nil, F: nil, G: 1, H: nil, I: nil, J: 0},
+	{A: 1 << 31, B: 1e9, C: true, D: " lead and trail ", E: []int{0}, F: []string{"", "", "z"}, G: 128, H: []float64{0}, I: []bool{false}, J: -(1 << 50)},
+}
+
 type SubRemote struct {
 	Ping func(ctx context.Context, x int) (string, error)
 }
@@ -334,6 +378,8 @@ type Remote struct {
 	KeepClosure func(ctx context.Context, slot int, cb func(ctx context.Context, i int, str string) (string, error)) error
 	KeepAndGate func(ctx context.Context, slot int, gate int, cb func(ctx context.Context, i int, str string) (string, error)) error
 	Panic       func(ctx context.Context, msg string) error
+	ClosureTypes  func(ctx context.Context, row int, cb func(ctx context.Context, a int, b float64, c bool, d string, e []int, f []string, g uint8, h []float64, i []bool, j int64) (string, error)) (string, error)
+	ClosureResult func(ctx context.Context, want int, cb func(ctx context.Context, k int) ([]int, error)) (string, error)
 	EchoAll     func(ctx context.Context, a int, b string, c []byte, d []int, e map[string]int, f Inner, g *Inner, h float64, i bool, j []string, k [][]int, l *int) (All, error)
 	Sum         func(ctx context.Context, xs []int) (int, error)
 	WhoAmI      func(ctx context.Context) (string, error)
@@ -343,4 +389,10 @@ type Remote struct {
 	Deep DeepRemote
 
 	Label string // non-function field: ignored
+}
+
+func (s *Svc) LastAll() All {
+	s.mu.Lock()
+	defer s.mu.Unlock()
+	return s.lastAll
 }
